@@ -878,6 +878,14 @@ func c12WriteArchive(o genOpts, a *c12Archive, muts []c12Mut, st *c12Stats, file
 	return nil
 }
 
+// c12LayoutError: car.Encode did not write one section per block handed to it, in order, as (length, cid, data)
+type c12LayoutError struct {
+	archive []byte
+	detail  string
+}
+
+func (e *c12LayoutError) Error() string { return e.detail }
+
 func c12Bounds(a *c12Archive) error {
 	for i := 0; i <= len(a.blocks); i++ {
 		b, err := c12Encode(a.roots, a.blocks[:i])
@@ -885,6 +893,18 @@ func c12Bounds(a *c12Archive) error {
 			return err
 		}
 		a.bounds = append(a.bounds, len(b))
+	}
+	// the encoder writes the sequence it is given: section i is uvarint(len(cid)+len(data)) ++ cid ++ data, nothing is
+	// dropped, merged or reordered (the mutations below rely on it, and so does every reader of Blocks())
+	for i, blk := range a.blocks {
+		want := cat(uvar(uint64(len(blk.cid)+len(blk.data))), blk.cid, blk.data)
+		lo, hi := a.bounds[i], a.bounds[i+1]
+		if lo > hi || hi > len(a.bytes) || !bytes.Equal(a.bytes[lo:hi], want) {
+			return &c12LayoutError{a.bytes, fmt.Sprintf("car.Encode of %d blocks: section %d is not the block it was given (archive %d bytes, expected section of %d bytes at offset %d)", len(a.blocks), i, len(a.bytes), len(want), lo)}
+		}
+	}
+	if a.bounds[len(a.blocks)] != len(a.bytes) {
+		return &c12LayoutError{a.bytes, "car.Encode wrote more than the sections of the blocks it was given"}
 	}
 	return nil
 }
@@ -960,6 +980,13 @@ func init() {
 				a, err = c12Random(r, []int{0, 1, 2, 3, 4, 6}[r.Intn(6)], 24) // small: every position is mutated
 			} else {
 				a, err = c12Random(r, 6, 300)
+			}
+			var le *c12LayoutError
+			if errors.As(err, &le) {
+				if len(st.Direct) < 200 {
+					st.Direct = append(st.Direct, c12Direct{"encode-layout", "roundtrip", hex.EncodeToString(le.archive), le.detail, ""})
+				}
+				continue
 			}
 			if err != nil {
 				return err
